@@ -2,7 +2,7 @@
 """Facts about one operator implementation unit (function + nested closures),
 shared by the per-operator properties C05, C06, C12–C16."""
 import re
-from .core import callee_of, callee_path, strip_refs, strip_payload, show_expr, const_value, bool_edge, op_const
+from .core import callee_of, callee_path, strip_refs, strip_payload, show_expr, const_value, bool_edge, op_const, expr_mentions
 from . import panic as PN
 
 ITER_ADAPTOR = re.compile(r"(^std::iter::Iterator::|as std::iter::Iterator>::)(fold|try_fold|for_each|map|filter|any|all|find|position|filter_map|flat_map|find_map|take_while|skip_while|rfold|try_for_each|scan|inspect)$")
@@ -173,3 +173,25 @@ def const_under_edge(body, sb, truth):
         if x[0] == "agg" and x[1].get("adt") == "serde_json::Value" and x[1].get("variant") == "Bool" and strip_refs(x[2][0])[0] == "const":
             return const_value(strip_refs(x[2][0])[1])
     return None
+
+
+def in_context(u, b, x, site, depth=0):
+    """[(expression, site)] — x (x-traced in body b) with the parameters of a helper function of the unit replaced by the
+    arguments of each of its call sites in the unit (context-sensitive, bounded depth)."""
+    owner = b
+    while owner.kind == "closure" and owner.creator():
+        owner = owner.creator()[0]
+    if depth < 3 and owner.key != u.root.key and owner.kind == "fn" and expr_mentions(x, lambda y: y[0] == "arg"):
+        callers = [s2 for s2 in u.calls(lambda c, _k=owner.key: c.get("key") == _k)]
+        if callers:
+            out = []
+            for s2 in callers:
+                def sub(e_, _s2=s2):
+                    if not isinstance(e_, tuple):
+                        return e_
+                    if e_[0] == "arg" and isinstance(e_[1], int) and 0 <= e_[1] - 1 < len(_s2.term["args"]):
+                        return _s2.body.xtrace(_s2.term["args"][e_[1] - 1])
+                    return tuple([sub(y) for y in z] if isinstance(z, list) else sub(z) for z in e_)
+                out.extend(in_context(u, s2.body, sub(x), s2, depth + 1))
+            return out
+    return [(x, site)]
